@@ -2,6 +2,7 @@ pub mod c04;
 pub mod c05;
 #[macro_use]
 pub mod c14;
+pub mod c07;
 pub mod c08;
 pub mod c10;
 pub mod c15;
